@@ -18,8 +18,8 @@ REAL_PY = '/venv/bin/python'
 EXIT_OK, EXIT_VIOLATION, EXIT_INCONCLUSIVE, EXIT_HARNESS = 0, 1, 2, 3
 
 TIER_LIMITS = {
-    'quick': dict(query_timeout_ms=20000, max_paths=400000, cfg_deadline_s=900, witness_per_cfg=12),
-    'thorough': dict(query_timeout_ms=120000, max_paths=4000000, cfg_deadline_s=3000, witness_per_cfg=40),
+    'quick': dict(query_timeout_ms=20000, max_paths=400000, cfg_deadline_s=900, witness_per_cfg=6),
+    'thorough': dict(query_timeout_ms=120000, max_paths=4000000, cfg_deadline_s=3000, witness_per_cfg=24),
 }
 
 
@@ -47,7 +47,7 @@ def _explore(task):
         E = symx.Explorer(query_timeout_ms=limits['query_timeout_ms'], max_paths=limits['max_paths'],
                           seed=seed, deadline_s=limits['cfg_deadline_s'])
         rng = random.Random(seed * 7919 + hash(json.dumps(cfg, sort_keys=True)) % 100003)
-        want = limits['witness_per_cfg']
+        want = limits['witness_per_cfg'] if prefix is None else max(1, limits['witness_per_cfg'] // 6)
         state = {'ctx': None, 'seen': 0}
 
         def body():
@@ -283,8 +283,16 @@ def _finish(pid, hname, h, tier, seed, results, real, t0, limits):
                                 sym=w['obs'], real=rr['obs']))
     # --- counterexample replay
     vreqs, vmeta = [], []
+    per_label = {}
+    import re as _re
+    n_cex_total = 0
     for r in results:
         for v in r['violations']:
+            n_cex_total += 1
+            sig = _re.sub(r'\d+', '#', v['label'])
+            per_label[sig] = per_label.get(sig, 0) + 1
+            if per_label[sig] > 6:
+                continue     # replay at most 6 counterexamples per (normalised) label
             vreqs.append(dict(harness=hname, cfg=r['cfg'], values=v['values'], want_obs=True))
             vmeta.append((r['cfg'], v))
     vres = real.map(vreqs) if vreqs else []
@@ -382,7 +390,7 @@ def _finish(pid, hname, h, tier, seed, results, real, t0, limits):
             solver_time_s=round(sum(r['solver_time'] for r in results), 2),
             cpu_s=round(sum(r['wall'] for r in results), 1),
             witnesses_sampled=len(wreqs), witnesses_skipped_rounding=wit_skipped,
-            counterexamples=len(vreqs), counterexamples_reproduced=n_viol + n_known,
+            counterexamples=n_cex_total, counterexamples_replayed=len(vreqs), counterexamples_reproduced=n_viol + n_known,
             known_findings=n_known, not_reproduced=len(not_repro),
             inconclusive=sorted(set(inconcl)), harness_errors=len(errors) + len(wit_bad),
             functions_encoded=getattr(h, 'FUNCTIONS', []), source_sha256_16=hashes,
